@@ -1,11 +1,19 @@
 import PdfModel.Core.Proto
 import PdfModel.Model.PageTree
 import PdfModel.Model.PageTreeBytes
+import PdfModel.Model.PageTreeDerived
 
 /-! Line-protocol handler for the C07 streams.
 
   c07.bytes <nq> <hex file> [@tag]     the byte-level composition: `PageTreeB.openPagesB` (open path, resolver, parser
                                         models, node reader) then `getPage` for i < nq; same answer format
+  c07.dflt0                            `1` iff the literal default `"0"` evaluates to the integer 0 at the tower levels 1..25
+                                        (the hypothesis `DefaultZeroEvaluates` of `page_nth_bytes_partial3`, evaluated)
+  c07.agree <hex file> [@tag]          `1` iff on every page-tree object of the file the derived readers yield the node the
+                                        hand-written `nodeOf` yields (the hypothesis `DerivedAgrees` of `page_nth_bytes_partial2`,
+                                        evaluated), else `0 <object numbers>`
+  c07.bytesd <nq> <hex file> [@tag]    the same with the *derived* node readers (`PageTreeB.openPagesBD`: /Type dispatch over the
+                                        generated schemas of `Page` / `PageTree`, parent chains loaded through the resolver)
   c07.tree <root> <nq> <objs> [@<stream>/<seed>/<case>]      (the last field is a replay tag, ignored)
       objs: objects separated by `;`, fields by `:`
         P:<id>:<parent>:<mb>:<cb>:<rs>                         /Type /Page
@@ -51,6 +59,48 @@ def showPage : Out Leaf → String
 
 def handle (args : List String) : String :=
   match args with
+  | ["c07.dflt0"] =>
+    -- the hypothesis `DefaultZeroEvaluates` of `page_nth_bytes_partial3`, evaluated at the tower levels in use
+    if (List.range 25).all fun k =>
+        match (Derive.semN ⟨true⟩ Generated.generatedSchemas (k + 1)).dflt "0" [] with
+        | .ok (.leaf (.int 0)) => true
+        | _ => false
+    then "1" else "0"
+  | ["c07.agree", file, _tag] => handle ["c07.agree", file]
+  | ["c07.agree", file] =>
+    match bytesOfHex file with
+    | some bs =>
+      let env : PdfLex.Env (List UInt8) :=
+        { parseReal := fun t => some t, resolveLen := fun _ _ => .err, allowMissingEndobj := false, decrypt := none, fileOffset := 0 }
+      let dec : PdfLex.Dict (List UInt8) → List UInt8 → Out (List UInt8) :=
+        fun d raw => match PdfLex.dictGet d OpenBytes.kFilter with | none => .ok raw | some _ => .err
+      match OpenBytes.openB env (3 * bs.length + 64) dec 64 bs with
+      | .ok (start, t, _) =>
+        let a := PageTreeB.tblB PageTreeB.nodeOf env (3 * bs.length + 64) dec 16 bs start t
+        let b := PageTreeB.tblBD (fun _ => 0) env (3 * bs.length + 64) dec 16 bs start t
+        -- objects that are page-tree nodes for the hand-written reader: the derived readers must yield the same node
+        let bad := (List.range t.length).filter fun id =>
+          match a id with
+          | some (.page _ _) | some (.pages _ _ _ _) => decide (a id ≠ b id)
+          | _ => false
+        if bad.isEmpty then "1" else s!"0 {joinWith "," (bad.map toString)}"
+      | o => s!"open={o.tag}"
+    | none => "bad-request"
+  | ["c07.bytesd", nq, file, _tag] => handle ["c07.bytesd", nq, file]
+  | ["c07.bytesd", nq, file] =>
+    match natOf nq, bytesOfHex file with
+    | some nq, some bs =>
+      let env : PdfLex.Env (List UInt8) :=
+        { parseReal := fun t => some t, resolveLen := fun _ _ => .err, allowMissingEndobj := false, decrypt := none, fileOffset := 0 }
+      let dec : PdfLex.Dict (List UInt8) → List UInt8 → Out (List UInt8) :=
+        fun d raw => match PdfLex.dictGet d OpenBytes.kFilter with | none => .ok raw | some _ => .err
+      -- reals occur only in positions of a box the page tree does not observe: their bit pattern is immaterial
+      match PageTreeB.openPagesBD (fun _ => 0) env (3 * bs.length + 64) dec 64 16 64 bs with
+      | .ok (tbl, r) =>
+        let rs := (List.range nq).map fun i => showPage (getPage tbl 64 r i)
+        s!"num={numPages r} {joinWith " " rs}"
+      | o => s!"root={o.tag}"
+    | _, _ => "bad-request"
   | ["c07.bytes", nq, file, _tag] => handle ["c07.bytes", nq, file]
   | ["c07.bytes", nq, file] =>
     match natOf nq, bytesOfHex file with
